@@ -90,12 +90,13 @@ Proof. reflexivity. Qed.
 
 (* T2: calendar round trip: for every instant whose local date lies in 2000..2255 and every fixed
    zone offset, decoding the written header gives the instant back, to the microsecond *)
-Theorem ymd_roundtrip tz t rest :
-  0 <= t < 18446744073709551616 ->
+(* ... stated for a reader whose zone offset is k seconds ahead of the writer's: it reads the instant k seconds earlier *)
+Theorem ymd_roundtrip_gen tz k t rest :
+  0 <= t < 18446744073709551616 -> 0 <= t - k * 1000000 < 18446744073709551616 ->
   DAY_2000 <= (t / 1000000 + tz) / 86400 < DAY_2256 ->
-  parse_ymd tz (create_ymd tz t ++ rest) 0 = t.
+  parse_ymd (tz + k) (create_ymd tz t ++ rest) 0 = t - k * 1000000.
 Proof.
-  intros Ht Hd.
+  intros Ht Htk Hd.
   unfold create_ymd. cbv zeta.
   set (us := t mod 1000). set (tot_ms := (t - us) / 1000). set (ms := tot_ms mod 1000).
   set (sec := tot_ms / 1000 + tz).
@@ -112,7 +113,50 @@ Proof.
   rewrite (digits2 ms ltac:(lia)), (digits2 us ltac:(lia)).
   set (rem := sec mod 86400).
   assert (E5 : sec / 86400 * 86400 + rem / 3600 * 3600 + rem mod 3600 / 60 * 60 + rem mod 60 = sec) by (subst rem; lia).
-  rewrite E5. subst sec. replace (tot_ms / 1000 + tz - tz) with (tot_ms / 1000) by lia.
-  assert (E6 : tot_ms / 1000 * 1000000 + ms * 1000 + us = t) by (subst ms tot_ms us; lia).
-  rewrite E6. apply Z.mod_small. exact Ht.
+  rewrite E5. subst sec. replace (tot_ms / 1000 + tz - (tz + k)) with (tot_ms / 1000 - k) by lia.
+  assert (E6 : (tot_ms / 1000 - k) * 1000000 + ms * 1000 + us = t - k * 1000000) by (subst ms tot_ms us; lia).
+  rewrite E6. apply Z.mod_small. exact Htk.
 Qed.
+Theorem ymd_roundtrip tz t rest :
+  0 <= t < 18446744073709551616 ->
+  DAY_2000 <= (t / 1000000 + tz) / 86400 < DAY_2256 ->
+  parse_ymd tz (create_ymd tz t ++ rest) 0 = t.
+Proof.
+  intros Ht Hd. pose proof (ymd_roundtrip_gen tz 0 t rest Ht ltac:(lia) Hd) as H.
+  replace (tz + 0) with tz in H by lia. rewrite H. lia.
+Qed.
+
+(* ---- zones with daylight saving: the written header decodes to the instant, unless the instant lies in the hour that is
+   repeated when daylight saving ends (its calendar time names two instants; mktime() picks the earlier one) *)
+Lemma parse_ymd_z_nodst tz b off : parse_ymd_z tz [] b off = parse_ymd tz b off.
+Proof. reflexivity. Qed.
+Lemma create_ymd_z_nodst tz t : create_ymd_z tz [] t = create_ymd tz t.
+Proof. reflexivity. Qed.
+
+Definition unambiguous (dst : list (Z * Z)) (t : Z) : Prop :=
+  in_dst dst (t / 1000000) = false -> in_dst dst (t / 1000000 - DST_SAVE) = false.
+
+Theorem ymd_roundtrip_z tz dst t rest :
+  0 <= t < 18446744073709551616 -> -86400 <= tz <= 86400 ->
+  DAY_2000 <= (t / 1000000 + tz) / 86400 -> (t / 1000000 + tz + DST_SAVE) / 86400 < DAY_2256 ->
+  unambiguous dst t ->
+  parse_ymd_z tz dst (create_ymd_z tz dst t ++ rest) 0 = t.
+Proof.
+  intros Ht Htz Hlo Hhi Hu. unfold parse_ymd_z, create_ymd_z, unambiguous, DST_SAVE in *.
+  assert (Hmid : (t / 1000000 + tz) / 86400 <= (t / 1000000 + tz + 3600) / 86400) by (apply Z.div_le_mono; lia).
+  destruct (in_dst dst (t / 1000000)) eqn:E.
+  - (* written as daylight time, read as daylight time *)
+    rewrite (ymd_roundtrip (tz + 3600) t rest Ht) by lia. rewrite E. reflexivity.
+  - (* written as standard time: read as daylight time it would be the instant one hour earlier, which is not daylight time *)
+    assert (H2000 : 946684800 <= t / 1000000 + tz) by (unfold DAY_2000 in Hlo; lia).
+    rewrite (ymd_roundtrip_gen tz 3600 t rest Ht) by (unfold DAY_2000, DAY_2256 in *; lia).
+    replace ((t - 3600 * 1000000) / 1000000) with (t / 1000000 - 3600) by lia.
+    rewrite (Hu eq_refl). apply ymd_roundtrip; [exact Ht | lia].
+Qed.
+
+(* the defect repaired by the fix commit: read with tm_isdst = 0 (always as standard time) a header written during daylight
+   time decodes one hour late *)
+Theorem ymd_isdst0_refuted : exists tz dst t,
+  parse_ymd_z tz dst (create_ymd_z tz dst t) 0 = t /\ parse_ymd tz (create_ymd_z tz dst t) 0 = t + 3600000000.
+Proof. exists 3600, [(1711846800, 1729990800)], 1721043045123456. split; vm_compute; reflexivity. Qed.
+
